@@ -45,15 +45,22 @@ def colOid (t : UInt8) : Option Nat :=
   if t = c 'b' then some Oid.bool else if t = c 's' then some Oid.int2 else if t = c 'i' then some Oid.int4
   else if t = c 'l' then some Oid.int8 else if t = c 't' then some Oid.text else if t = c 'v' then some Oid.varchar
   else if t = c 'y' then some Oid.bytea else if t = c 'u' then some Oid.uuid else if t = c 'f' then some Oid.float4
-  else if t = c 'd' then some Oid.float8 else none
+  else if t = c 'd' then some Oid.float8 else if t = c 'z' then some Oid.ztext else none
 
-def parseCol (i : Nat) (b : Bytes) : Option ColDesc :=
+def parseColPlain (i : Nat) (b : Bytes) : Option ColDesc :=
   match b with
   | [t] => (colOid t).map fun o => { name := ascii ("c" ++ toString i), oid := o }
   | t :: 61 :: hx => do
     let o ← colOid t; let n ← unhexB hx
     pure { name := n, oid := o }
   | _ => none
+
+/-- a trailing `~` sets table id, attribute number and width of the column (and, on the Go side,
+    a type modifier, which `Column.Define` does not transmit: it always writes -1) -/
+def parseCol (i : Nat) (b : Bytes) : Option ColDesc :=
+  match b.reverse with
+  | 126 :: r => (parseColPlain i r.reverse).map fun cd => { cd with table := 7 + i, attrNo := i + 1, width := 8 }
+  | _ => parseColPlain i b
 
 def parseList {α} (f : Nat → Bytes → Option α) (sep : UInt8) (b : Bytes) : Option (List α) :=
   if b = [] then some [] else
@@ -82,7 +89,7 @@ def valFits (oid : Nat) : Val → Bool
   | .null | .tnull | .invalid | .junk => true
   | .bool _ => oid = Oid.bool
   | .int _ => oid = Oid.int2 || oid = Oid.int4 || oid = Oid.int8
-  | .text _ => oid = Oid.text || oid = Oid.varchar
+  | .text _ => oid = Oid.text || oid = Oid.varchar || oid = Oid.ztext
   | .bytea _ => oid = Oid.bytea
   | .uuid _ => oid = Oid.uuid
   | .f4 _ => oid = Oid.float4
